@@ -92,6 +92,21 @@ func run(r *core.Run) {
 	for _, s := range strs {
 		do("doc", s)
 	}
+	// every \u escape at the boundaries of the encoding forms, and surrogate
+	// pairs for every plane boundary (all 17 planes are reached through the
+	// high surrogates d800..dbff)
+	r.Section("escape boundary matrix: \\uXXXX code units (lower and upper case hex) and surrogate pairs high x low, as value and as key")
+	for _, u := range []string{"0000", "0008", "001f", "0020", "007f", "0080", "00e9", "07ff", "0800", "2028", "d7ff", "e000", "fffd", "fffe", "ffff", "00E9", "FFFD", "D7FF"} {
+		do("doc", `"\u`+u+`"`)
+		do("doc", `{"\u`+u+`":1}`)
+		do("doc", `"a\u`+u+`b"`)
+	}
+	for _, hi := range []string{"d800", "d801", "d83d", "d83f", "d840", "d842", "d87f", "d880", "d8c0", "d900", "da00", "db40", "db7f", "db80", "dbff", "DBFF"} {
+		for _, lo := range []string{"dc00", "dc01", "de00", "dfb7", "dfff", "DFFF"} {
+			do("doc", `"\u`+hi+`\u`+lo+`"`)
+			do("doc", `{"\u`+hi+`\u`+lo+`":"x\u`+hi+`\u`+lo+`y"}`)
+		}
+	}
 	// containers over a reduced element alphabet
 	elems := []string{"null", "true", "0", "-0", "1.0", "1e400", `""`, `"a"`, `"\u0000"`, `"\ud83d\ude00"`, "\"\u2028\"", `"<"`, `"\ufeff"`, "\"\ufeff\"", `"\("`, `"#"`}
 	keys := []string{`""`, `"a"`, `"b"`, `"\n"`, `"a b"`, `"#x"`, `"_h"`, `"é"`, `"1"`}
